@@ -68,6 +68,26 @@ class Helper:
             raise HarnessError("helper error: " + rep["error"])
         return rep
 
+    def send(self, cmd):
+        try:
+            self.p.stdin.write(json.dumps(cmd) + "\n")
+            self.p.stdin.flush()
+        except Exception as e:
+            raise HarnessError(f"helper died: {e}")
+
+    def recv(self, timeout=60.0):
+        r, _, _ = select.select([self.p.stdout], [], [], timeout)
+        if not r:
+            self.kill()
+            return None
+        line = self.p.stdout.readline()
+        if not line:
+            raise HarnessError("helper closed its pipe")
+        rep = json.loads(line)
+        if "error" in rep:
+            raise HarnessError("helper error: " + rep["error"])
+        return rep
+
     def kill(self):
         try:
             self.p.kill()
@@ -178,7 +198,7 @@ def check_owned(recipe) -> list[Fail]:
                 for k, v in zip(keys, vals):
                     if k in res["put_ok"]:
                         must[k] = v
-            elif kind not in ("read_all", "read_fail_body", "fail_end_read", "fail_begin_write", "fail_begin_read"):
+            elif kind not in ("read_all", "read_fail_body", "fail_end_read", "fail_begin_write", "fail_begin_read", "read_fail_interrupt"):
                 for k, v in zip(keys, vals):
                     may[k] = v
             if res.get("seen") is not None:
@@ -253,6 +273,93 @@ def enum_owned(tier, shard, nshards):
 def strat_owned(tier):
     hs = ["A", "B", "H1", "H2"]
     return st.fixed_dictionaries({"sessions": st.lists(st.tuples(st.sampled_from(hs), st.integers(0, len(cc.KINDS) - 1)).map(list), min_size=4, max_size=6 if tier == "quick" else 10)})
+
+
+# ---------------------------------------------------------------- constructor vs. completed sessions (harness-owned interleaving)
+def check_ctor(recipe) -> list[Fail]:
+    """Another process starts constructing its handle while the library does not exist yet and is held right before its first
+    lock acquisition; meanwhile this process creates the library and completes 1-2 writing sessions; then the gate opens.
+    Nothing written in the completed sessions may be lost, and every handle proceeds."""
+    fails: list[Fail] = []
+    d = _dir("c")
+    path = os.path.join(d, "lib.ukv")
+    at_file, gate_file = os.path.join(d, "at"), os.path.join(d, "gate")
+    hn = "H1"
+    local = None
+    try:
+        h = helper(hn)
+        h.send({"op": "new_gated", "path": path, "handles": {hn: {"ro": bool(recipe["ro"]), "buf": [-1, 0, 64, 10**6][recipe["hbuf"]]}}, "at_file": at_file, "gate_file": gate_file})
+        t0 = time.time()
+        while not os.path.exists(at_file) and time.time() - t0 < 30:
+            time.sleep(0.01)
+        if not os.path.exists(at_file):
+            raise HarnessError("gated helper never reached its first lock acquisition")
+        local = cc.make_handle(path, False, [-1, 0, 64, 10**6][recipe["abuf"]])
+        must = {}
+        for i in range(recipe["nsess"]):
+            keys, vals = [f"c{i}a", f"c{i}b"], _vals(i)
+            res = cc.run_session(local, "write2" if recipe["two"] else "write1", keys, vals)
+            if res["exc"] is not None or not res["acquired"]:
+                fails.append(Fail("ctor:session-before-gate-fails", f"{res}"))
+                return fails
+            for k, v in zip(keys, vals):
+                if k in res["put_ok"]:
+                    must[k] = v
+        open(gate_file, "w").close()
+        rep = h.recv(timeout=60)
+        if rep is None:
+            fails.append(Fail("ctor:constructor-never-returns", "the gated constructor did not finish within 60 s after the gate opened"))
+            return fails
+        views = [("creator's handle", cc.run_session(local, "read_all", [], []))]
+        if not recipe["ro"] or True:
+            r2 = h.call({"op": "session", "h": hn, "kind": "read_all", "keys": [], "vals": []}, timeout=60)
+            if r2 is None:
+                raise HarnessError("helper stalled during the final read")
+            views.append(("late-constructed handle", r2))
+        for who, res in views:
+            if not res["acquired"] or res["exc"]:
+                fails.append(Fail("ctor:final-read-fails", f"{who}: {res}"))
+                continue
+            seen = res["seen"]
+            lost = sorted(k for k in must if k not in seen)
+            if lost:
+                fails.append(Fail("ctor:completed-record-lost", f"{who}: records {lost} of sessions completed before the other process finished constructing its handle are gone (sees {sorted(seen)})"))
+            elif any(seen[k] != must[k].hex() for k in must):
+                fails.append(Fail("ctor:completed-record-altered", who))
+    finally:
+        if local is not None:
+            try:
+                uf = getattr(local._backend, "_ukvfile", None)
+                if uf is not None and not uf.closed:
+                    uf.close()
+            except Exception:
+                pass
+        if fails and hn in _H:
+            _H[hn].kill()
+        shutil.rmtree(d, ignore_errors=True)
+        try:
+            from molli._aux.lock import rwlock
+            os.unlink(str(rwlock(path)))
+        except OSError:
+            pass
+    seen_, out = set(), []
+    for f_ in fails:
+        if f_.sig not in seen_:
+            seen_.add(f_.sig)
+            out.append(f_)
+    return out
+
+
+def enum_ctor(tier, shard, nshards):
+    i = 0
+    for ro in (0,):      # (a read-only handle on a library that does not exist is refused outright: FileNotFoundError)
+        for hbuf in range(4):
+            for abuf in range(4):
+                for nsess in (1, 2):
+                    for two in (0, 1):
+                        if i % nshards == shard:
+                            yield {"ro": ro, "hbuf": hbuf, "abuf": abuf, "nsess": nsess, "two": two}
+                        i += 1
 
 
 # ---------------------------------------------------------------- real schedules
@@ -392,12 +499,17 @@ LEGS = [
     Leg(
         "owned", check_owned, classify_owned, enumerate=enum_owned, exhaustive=True,
         shards={"quick": 16, "thorough": 32},
-        rule="ALL sequences of k<=2 (quick: 3 handles) / k<=3 (thorough: 4 handles) sessions over 11 session kinds (read, write1, write2, fail in body / encoder / flush-time backend write / end_write / reader body / end_read / begin_write / begin_read); lock probed from a fresh process after every session; non-trivial = failing session followed by a session on another handle (or by the probe process), or a stale handle writing after another writer",
+        rule="ALL sequences of k<=2 (quick: 3 handles) / k<=3 (thorough: 4 handles) sessions over 14 session kinds (read, write1, write2, fail in body by Exception / KeyboardInterrupt / SystemExit / encoder / flush-time backend write / end_write / reader body / end_read / begin_write / begin_read); lock probed from a fresh process after every session; non-trivial = failing session followed by a session on another handle (or by the probe process), or a stale handle writing after another writer",
     ),
     Leg(
         "owned_rand", check_owned, classify_owned, strategy=strat_owned,
         n={"quick": 60, "thorough": 3000}, shards={"quick": 12, "thorough": 32},
         rule="random sequences of 4-6 (quick) / 4-10 (thorough) sessions over 4 handles in 3 processes, same oracle",
+    ),
+    Leg(
+        "ctor", check_ctor, lambda r: (True, [f"sessions_before_gate={r['nsess']}"]), enumerate=enum_ctor, exhaustive=True, shards={"quick": 8, "thorough": 8},
+        rule="harness-owned interleaving of a handle CONSTRUCTOR with completed sessions: a helper process starts constructing its handle on a library that does not exist yet and is held right before its first lock acquisition; "
+             "this process creates the library and completes 1-2 writing sessions; the gate opens; every record must survive and both handles must read. All 4x4 buffer sizes x 1-2 sessions x 1-2 puts combinations",
     ),
     Leg(
         "real", check_real, classify_real, strategy=strat_real,
